@@ -91,11 +91,16 @@ theorem native_ends_with (s p : Str) (a b : Span) :
 theorem native_to_upper (s : Str) (a : Span) :
     callNative env .toUpper [.str s] [a] σ = .ok (.str (s.flatMap env.upper), σ) := rfl
 
-/-- `TO_LOWER`: every character replaced by its lower-case mapping.
-(Rust's `str::to_lowercase` differs from this on exactly one character, `Σ` at the end of a word:
-`StrOps.toLowerSigma_eq_toLower`; see the report for the concrete instance.) -/
+/-- `TO_LOWER` is Rust's `str::to_lowercase`: every character replaced by its lower-case mapping, except that a
+capital sigma becomes the final sigma `ς` at the end of a word (a cased letter before it, none after it, skipping
+case-ignorable characters) and `σ` elsewhere -/
 theorem native_to_lower (s : Str) (a : Span) :
-    callNative env .toLower [.str s] [a] σ = .ok (.str (s.flatMap env.lower), σ) := rfl
+    callNative env .toLower [.str s] [a] σ = .ok (.str (StrOps.toLowerSigma env env.caseIgn env.cased s), σ) := rfl
+
+/-- without a capital sigma it is the character-wise mapping -/
+theorem native_to_lower_plain (s : Str) (a : Span) (h : StrOps.capSigma ∉ s) :
+    callNative env .toLower [.str s] [a] σ = .ok (.str (s.flatMap env.lower), σ) := by
+  rw [native_to_lower, StrOps.toLowerSigma_eq_toLower env env.caseIgn env.cased s h]; rfl
 
 /-- the specification of trimming: `t` is `s` without its longest white-space prefix and suffix -/
 structure IsTrimOf (w : Char → Bool) (s t : Str) : Prop where
